@@ -18,7 +18,7 @@ ANCHORS = ["runlengtharray.py::RunLengthArray._get_position", "runlengtharray.py
            "runlengtharray.py::RunLengthArray.__getitem__", "mixin.py::NPSIndexable.__getitem__"]
 KINDS = ["int", "list", "array", "boolarray", "boollist", "rlmask", "cmpmask", "slice", "windows"]
 FLOOR_TAGS = ["k:" + k for k in KINDS] + ["step:+1", "step:+k", "step:-1", "step:-k", "bounds:oob", "bounds:in", "result:empty", "mask:allfalse", "mask:alltrue", "int:negative",
-                                          "kind:b", "kind:i", "kind:u", "kind:f", "index:readonly", "k:virtual", "virtual:2**53", "virtual:2**31", "receiver:subclass", "step:huge", "windows:narrow-dtype", "windows:len-exceeds-dtype"]
+                                          "kind:b", "kind:i", "kind:u", "kind:f", "index:readonly", "k:virtual", "virtual:2**53", "virtual:2**31", "receiver:subclass", "step:huge", "windows:narrow-dtype", "windows:len-exceeds-dtype", "index:2d", "rlmask:astype", "rlmask:invert"]
 FLOOR_MONITORS = ["c15:compare", "c15:canonical", "inv:rla", "c15:arguments-unchanged"]
 FP_STRICT = True       # a floating-point event inside the library that the dense computation does not have is a violation (shard.FpMonitor)
 N_RANDOM = {"quick": 24000, "thorough": 300000}
@@ -157,6 +157,11 @@ def run(case):
     elif kind in ("list", "array"):
         q = list(idx) if kind == "list" else mine(np.array(idx, dtype=case.get("idtype", "int64")))
         exp = v[np.array(idx, dtype=np.int64)]
+        if kind == "array" and case.get("ishape"):
+            # an index array with more than one dimension: the result has the shape of the index, as for the dense array
+            q = mine(np.array(idx, dtype=case.get("idtype", "int64")).reshape(case["ishape"]))
+            exp = v[np.array(idx, dtype=np.int64).reshape(case["ishape"])]
+            tags.append("index:%dd" % len(case["ishape"]))
         a = attempt(lambda: r[q])
         dec = np.asarray
         want = "dense"
@@ -170,7 +175,21 @@ def run(case):
     elif kind in ("rlmask", "cmpmask"):
         if kind == "rlmask":
             m = np.array(idx, dtype=bool)
-            mask = RLA.from_array(m.copy())
+            via = case.get("via", "from_array")
+            tags.append("rlmask:" + via)
+            if via == "astype":
+                # the mask is the boolean form of an encoded vector of codes: neighbouring runs with different non-zero codes become equal neighbours
+                codes = np.where(m, 1 + (np.arange(L) // 2) % 3, 0).astype(case.get("codetype", "int64"))
+                mask = RLA.from_array(codes).astype(bool)
+            elif via == "invert":
+                mask = ~RLA.from_array(~m)
+            elif via == "and":
+                alt = np.arange(L) % 2 == 0
+                mask = RLA.from_array(m | alt) & RLA.from_array(m | ~alt)
+            elif via == "slice":
+                mask = RLA.from_array(np.concatenate([~m[:2], m, m[:1]]))[len(m[:2]):len(m[:2]) + L]
+            else:
+                mask = RLA.from_array(m.copy())
         else:
             thr = idx
             mask = r > thr if case.get("op", "gt") == "gt" else r != thr     # keeps the runs of r: adjacent runs may have the same truth value
@@ -289,6 +308,10 @@ def gen_case(rng, tier, kind=None, dtype=None):
                 c["idtype"] = rng.choice(["int64", "int32"])
             return c
         c = mk_case(dtype, vals, kind, [rng.randint(-L, L - 1) for _ in range(rng.randint(1, 7))])
+        if kind == "array" and rng.random() < 0.25:
+            a_, b_ = rng.randint(1, 4), rng.randint(1, 4)
+            c["idx"] = [rng.randint(-L, L - 1) for _ in range(a_ * b_ * (2 if rng.random() < 0.3 else 1))]
+            c["ishape"] = [a_, b_] if len(c["idx"]) == a_ * b_ else [a_, 2, b_]
         if kind == "array":
             c["readonly"] = rng.random() < 0.3
             c["idtype"] = rng.choice(["int64", "int64", "int32", "intp", "int16", ">i8", ">i4"])
@@ -299,7 +322,11 @@ def gen_case(rng, tier, kind=None, dtype=None):
             m = np.resize(rl.gen_runs(rng, "bool", "small", L)[0], L).astype(bool).tolist()
         else:
             m = [rng.random() < p for _ in range(L)]
-        return mk_case(dtype, vals, kind, m, readonly=(kind == "boolarray" and rng.random() < 0.3))
+        c = mk_case(dtype, vals, kind, m, readonly=(kind == "boolarray" and rng.random() < 0.3))
+        if kind == "rlmask" and rng.random() < 0.5:
+            c["via"] = rng.choice(["astype", "astype", "invert", "and", "slice"])      # masks that are themselves results of run-length operations
+            c["codetype"] = rng.choice(["int64", "uint8", "int8", "float64"])
+        return c
     if kind == "cmpmask":
         if np.dtype(dtype).kind == "b":
             return mk_case(dtype, vals, kind, False, op="ne")
@@ -387,6 +414,26 @@ def _with_swap(rng, c):
     if isinstance(c, dict) and "dtype" in c and np.dtype(c["dtype"]).kind in "iu" and rng.random() < 0.12:
         c["swap"] = True
     return c
+
+
+def const_case(rng, tier, s, form):
+    """a number taken from the library source (+-1) as the length of the array / its number of runs / the length of one run (through the forced first size of
+    the case's generator), or -- forms "nonempty", "emptyrun" -- as the number of positions in one look-up (1-d, and 2-d when it factors)"""
+    if form in ("nonempty", "emptyrun") and s <= 300000:
+        gen.FORCED["used"] += 1        # (this case does not draw its size from the run generator)
+        dtype = rng.choice(gen.DT_ALL)
+        v, _ = rl.gen_runs(rng, dtype, "small", 40 if form == "nonempty" else 400)
+        L = len(v)
+        idx = np.random.RandomState(rng.randrange(2 ** 32)).randint(-L, L, size=s).tolist()
+        c = mk_case(dtype, v.tolist(), "array", idx)
+        c["idtype"] = rng.choice(["int64", "int64", "int32"])
+        f = [k for k in (2, 3, 4, 5, 7, 10, 11, 13, 16, 100, 256) if s % k == 0 and s // k > 1]
+        if f:
+            k = rng.choice(f)
+            return [c, dict(c, ishape=[k, s // k] if rng.random() < 0.5 else [s // k, k])]        # the same positions as a vector and as a table
+        return c
+    c = random_case(rng, tier)
+    return c if gen.FORCED["used"] else None
 
 
 def random_case(rng, tier):
